@@ -35,6 +35,21 @@
 //!   textcmr <fam> <hex of UTF-8 source> <program 0|1> <pdl>
 //!       the root CMR of `main` of the parsed text against the CMR of the PDL program built through
 //!       the construction API -> `0 <eq>` | `1 <nerr> <k> <code>*k` (text) | `2 <code>` (pdl) | `9`
+//!   paths <fam> <hex of UTF-8 source>
+//!       Forest::parse only; the error list with the names and counts of WitnessDisconnectRepeated
+//!       -> `9` panic | `0 <nroots>` | `1 <k> <code>*k (77 <name> <count>)*` (pairs sorted; names must be of the
+//!          canonical forms main / generated / hole_<n> / u<k>)
+//!   fromok <fam> <program 0|1> <pdl>
+//!       the facts behind theorem C17_from_program, observed on the objects:
+//!       -> `1 <code>` does not commit
+//!       -> `0 <closed> <nodes> <distinct> <paths_ok>`
+//!          closed: every CommitNode with an identity hash is neither witness nor disconnect and all its
+//!          operands have one; nodes: node objects of Forest::from_program's `main`; distinct: their names
+//!          are pairwise distinct; paths_ok: every witness / disconnect name is reached from main by at most
+//!          one path (counted top-down: paths_to[child] += paths_to[parent])
+//!   rtext <fam> <program 0|1> <pdl>
+//!       -> `1 <code>` does not commit | `0 <byte>*` the UTF-8 bytes of Forest::from_program(..).string_serialize()
+//!          (tokenised by the driver with its own reader: kind linetok of the check)
 //!   LINES   = one group per definition line of the rendered text, in text order:
 //!             `7 <kind> <name> <operands>`
 //!             kind: 0 iden 1 unit 2 injl 3 injr 4 take 5 drop 6 comp 7 case 8 pair 9 assertl
@@ -720,6 +735,91 @@ fn textcmr_case<J: Jet>(src: &str, program: bool, pdl: &str) -> Vec<u128> {
     }
 }
 
+fn paths_case<J: Jet>(src: &str) -> Vec<u128> {
+    match guarded(|| Forest::parse::<J>(src)) {
+        None => vec![9],
+        Some(Ok(f)) => vec![0, f.roots().len() as u128],
+        Some(Err(e)) => {
+            let mut codes: Vec<u128> = e.iter().map(err_code).collect();
+            codes.sort();
+            codes.dedup();
+            let mut out = vec![1, codes.len() as u128];
+            out.extend(codes);
+            let mut groups: Vec<Vec<u128>> = vec![];
+            let mut others = vec![];
+            for er in e.iter() {
+                if let HErr::WitnessDisconnectRepeated { name, count } = er {
+                    let mut g = vec![77];
+                    name_nums(name, &mut g, &mut others);
+                    g.push(*count as u128);
+                    groups.push(g);
+                }
+            }
+            groups.sort();
+            for g in groups {
+                out.extend(g);
+            }
+            out
+        }
+    }
+}
+
+fn fromok_case(program: bool, pdl: &str) -> Vec<u128> {
+    let specs = parse_prog(pdl);
+    let commit = match commit_of(&specs, program) {
+        Ok(c) => c,
+        Err(e) => return vec![1, err_code_prog(&e)],
+    };
+    // identity hashes as CommitData::imr assigns them
+    let mut has: Vec<bool> = vec![];
+    let mut closed = true;
+    for data in commit.as_ref().post_order_iter::<InternalSharing>() {
+        let own = data.node.ihr().is_some();
+        if own {
+            if matches!(data.node.inner(), simplicity::node::Inner::Witness(..) | simplicity::node::Inner::Disconnect(..)) {
+                closed = false;
+            }
+            for idx in [data.left_index, data.right_index].into_iter().flatten() {
+                if !has[idx] {
+                    closed = false;
+                }
+            }
+        }
+        has.push(own);
+    }
+    let forest = Forest::from_program(Arc::clone(&commit));
+    let main = forest.roots().get("main").expect("from_program has main");
+    let mut names: Vec<Arc<str>> = vec![];
+    let mut counted: Vec<bool> = vec![];
+    let mut kids: Vec<Vec<usize>> = vec![];
+    for data in main.as_ref().post_order_iter::<InternalSharing>() {
+        names.push(Arc::clone(data.node.name()));
+        counted.push(matches!(data.node.inner(), simplicity::node::Inner::Witness(..) | simplicity::node::Inner::Disconnect(..)));
+        kids.push([data.left_index, data.right_index].into_iter().flatten().collect());
+    }
+    let n = names.len();
+    let mut sorted = names.clone();
+    sorted.sort();
+    sorted.dedup();
+    let distinct = sorted.len() == n;
+    let mut paths_to: Vec<u128> = vec![0; n];
+    paths_to[n - 1] = 1;
+    for i in (0..n).rev() {
+        for &c in &kids[i] {
+            paths_to[c] = paths_to[c].saturating_add(paths_to[i]);
+        }
+    }
+    let mut per_name: HashMap<Arc<str>, u128> = HashMap::new();
+    for i in 0..n {
+        if counted[i] {
+            let e = per_name.entry(Arc::clone(&names[i])).or_insert(0);
+            *e = e.saturating_add(paths_to[i]);
+        }
+    }
+    let paths_ok = per_name.values().all(|c| *c <= 1);
+    vec![0, closed as u128, n as u128, distinct as u128, paths_ok as u128]
+}
+
 fn run_inner(t: &[&str]) -> Vec<u128> {
     match t[0] {
         "typ" => return typ_case(t[1], t.get(2).map(|x| x.parse().unwrap()).unwrap_or(0)),
@@ -741,6 +841,28 @@ fn run_inner(t: &[&str]) -> Vec<u128> {
             }
         }
         "classes" => classes_case(t[2] == "1", t[3]),
+        "fromok" => fromok_case(t[2] == "1", t[3]),
+        "rtext" | "linetok" => {
+            let specs = parse_prog(t[3]);
+            match commit_of(&specs, t[2] == "1") {
+                Ok(c) => {
+                    let text = Forest::from_program(c).string_serialize();
+                    let mut out = vec![0];
+                    out.extend(text.bytes().map(|b| b as u128));
+                    out
+                }
+                Err(e) => vec![1, err_code_prog(&e)],
+            }
+        }
+        "paths" => {
+            let bytes = unhex(t[2]);
+            let src = String::from_utf8_lossy(&bytes).to_string();
+            if fam == 'c' {
+                paths_case::<Core>(&src)
+            } else {
+                paths_case::<Elements>(&src)
+            }
+        }
         "prog" => {
             if fam == 'c' {
                 prog_case::<Core>(fam, t[2] == "1", t[3])
